@@ -1,3 +1,3 @@
-from . import archs, grayconst, polarrank, primpolys, thresholders
+from . import archs, grayconst, iterloops, polarrank, primpolys, thresholders
 
-ALL = [primpolys.generate, grayconst.generate, polarrank.generate, thresholders.generate, archs.generate]
+ALL = [primpolys.generate, grayconst.generate, polarrank.generate, thresholders.generate, archs.generate, iterloops.generate]
